@@ -14,7 +14,7 @@ def build(res):
 
 def scripts(dt, hx, rng, n_hint):
     L = len(hx) // 2 if hx != "-" else 0
-    k = 5 + min(8, n_hint)   # few repeated calls: a hostile depth-31 code table costs ~4 s and 2 GiB per call
+    k = 4 + min(4, n_hint)   # few repeated calls: a hostile depth-31 code table costs ~4 s and 2 GiB per call
     yield "rdec %s %s" % (dt, hx)
     yield "rhist %s 100000 w:%s h %s" % (dt, hx, " ".join(["m", "s", "m", "b"] * 2))
     yield "rhist %s %d w:%s %s" % (dt, rng.choice([1, 30, 100000]), hx, " ".join(["n"] * k))
@@ -75,9 +75,11 @@ def run(res):
         f = rng.choice(base)
         ops = gen_history(f, rng, True)
         qs.append("rhist %s %d %s" % (f["dt"], rng.choice([1, 2, 30, 100000]), " ".join(ops)))
-    import time
+    import time, os
+    if os.environ.get("VERIF_DUMP"):
+        open(os.environ["VERIF_DUMP"], "w").write("\n".join(qs) + "\n")
     t0 = time.time()
-    ia = lib.run_impl(qs, shards=8, timeout=2400)
+    ia = lib.run_impl(qs, shards=15, timeout=2400)
     t1 = time.time()
     # the model is ~30x slower than the library: the quick tier diffs every 4th mutant
     step = 1 if thorough else 4
@@ -89,7 +91,7 @@ def run(res):
         ma[i] = m
     res.count("model_diffed", len(msub))
     t2 = time.time()
-    ir = lib.run_impl(qs[::5], release=True, shards=8, timeout=2400)
+    ir = lib.run_impl(qs[::5], release=True, shards=15, timeout=2400)
     res.notes.append("wall: debug impl %.0fs (%d queries), model %.0fs (%d), release impl %.0fs (%d)" % (t1 - t0, len(qs), t2 - t1, len(midx), time.time() - t2, len(qs[::5])))
     pbad, kbad = [], []
     for q, a, m in zip(qs, ia, ma):
